@@ -222,7 +222,7 @@ func execLong(c pair) kit.Outcome {
 // TestLong: long star-dense patterns: agreement with the reference and termination within a bound.
 func TestLong(t *testing.T) {
 	kit.Check(t, kit.Spec[pair]{Sub: "pair", Quick: 6000, Thorough: 150000,
-		Gen: func(t *rapid.T) pair { return pair{kit.B(genPattern(t)), kit.B(genSubject(t))} },
+		Gen:  func(t *rapid.T) pair { return pair{kit.B(genPattern(t)), kit.B(genSubject(t))} },
 		Exec: execLong})
 }
 
@@ -301,8 +301,9 @@ func TestKeys(t *testing.T) {
 
 func TestReplay(t *testing.T) {
 	kit.Replay[pair](t, map[string]func(kit.RawCase) kit.Outcome{
-		"pair": kit.ReplaySub(execLong),
-		"keys": kit.ReplaySub(execKeys),
+		"pair":     kit.ReplaySub(execLong),
+		"keys":     kit.ReplaySub(execKeys),
 		"conckeys": kit.ReplaySub(execConcKeys),
+		"volkeys":  kit.ReplaySub(execVolKeys),
 	})
 }
